@@ -1372,7 +1372,12 @@ class Quantity(metaclass=QuantityMeta):
                     pass
                 else:
                     assert unit_from_sym.qty_cls is not None
-                    qty = unit_from_sym.qty_cls(amnt, unit_from_sym)
+                    # the amount must not be quantized in terms of the unit
+                    # given by symbol before it gets converted, otherwise it
+                    # would be rounded twice
+                    qty = object.__new__(unit_from_sym.qty_cls)
+                    qty._amount = amnt
+                    qty._unit = unit_from_sym
                     return qty.convert(unit)
         else:
             raise TypeError("Given amount must be a number or a string "
